@@ -115,6 +115,33 @@ def _borrow_class(f, b, e, to, C, R, r):
     return ok, why, cls
 
 
+def _class_at_call_sites(f, fn, argno, to, C, R, r, depth=0):
+    """the borrow class of what every call site of `fn` passes as argument `argno`; a private function that passes on (part of) one
+    of its own parameters forwards the question to its callers in turn"""
+    out = []
+    for cb in f.body_list:
+        if cb.promoted is not None:
+            continue
+        for cpt, ct in cb.calls():
+            cc = ct.get('callee')
+            if not (cc and (cc.get('resolved') or cc['path']) == fn.key) or argno - 1 >= len(ct['args']):
+                continue
+            e = resolve_closure_params(f, cb.expr_of_operand(ct['args'][argno - 1]))
+            res = _borrow_class(f, cb, e, to, C, R, r)
+            if not res[0] and depth < 3:
+                croot = f.body(cb.d.get('root') or cb.path) or cb
+                roots = [rt for rt, _fs in access_paths(e, through_calls={'deref', 'borrow', 'as_ref', 'unwrap', 'expect'})]
+                if roots and croot is cb and not cb.d.get('pub') and cb.d['kind'] != 'Closure' and not cb.d.get('impl_trait') and \
+                        all(x[0] == 'arg' and x[3] == cb.key and x[1] >= 1 for x in roots):
+                    sub = []
+                    for x in roots:
+                        sub.extend(_class_at_call_sites(f, cb, x[1], to, C, R, r, depth + 1))
+                    if sub and all(y[0] for y in sub):
+                        res = (True, 'a private function forwards its parameter; every call site of it passes ' + sub[0][1], sub[0][2])
+            out.append(res)
+    return out
+
+
 def _unsafe_fn_kind(f, body):
     """what obligation a crate-local unsafe fn forwards to its callers"""
     for m in [body] + f.closures_of(body):
@@ -158,15 +185,8 @@ def rule_unsafe_sites(ctx, config='dev'):
             if not ok and in_unsafe_fn and roots_ and all(x[0] == 'arg' and x[3] == root.key for x in roots_):
                 # the unsafe fn only forwards the obligation: every call site must pass a referent that satisfies it
                 sites_ = []
-                for cb in f.body_list:
-                    if cb.promoted is not None:
-                        continue
-                    for cpt, ct in cb.calls():
-                        cc = ct.get('callee')
-                        if cc and (cc.get('resolved') or cc['path']) == root.key:
-                            for x in roots_:
-                                if x[1] - 1 < len(ct['args']):
-                                    sites_.append(_borrow_class(f, cb, cb.expr_of_operand(ct['args'][x[1] - 1]), to, C, R, r))
+                for x in roots_:
+                    sites_.extend(_class_at_call_sites(f, root, x[1], to, C, R, r))
                 if sites_ and all(x[0] for x in sites_):
                     ok, cls = True, sites_[0][2]
                     why = 'unsafe fn forwards the obligation; every call site passes ' + sites_[0][1]
